@@ -161,6 +161,19 @@ func runC10(c *ShardCtx) {
 		}
 		diff(g, xs[:1], def, nil)
 	}
+	// labels of inlined rules next to equally named labels of the enclosing rule (C09's family):
+	// -optimize-grammar vs -optimize-grammar -optimize-parser
+	inputs = peg.Inputs([]string{"a", "b", "c"}, 3)
+	for _, g := range sameNameLabelFamily() {
+		if c.Expired("same-name label family") {
+			return
+		}
+		gg := g.Clone()
+		peg.Renumber(gg, 1)
+		peg.AssignArgs(gg)
+		diff(gg, []core.Gen{{OptGrammar: true}, {}}, def, nil)
+	}
+	inputs = inputs0
 	// (a)
 	en := peg.NewEnumerator(peg.Alphabet{Leaves: baseLeaves(), Unary: allUnary, Seq: true, Choice: true, MaxArity: 3})
 	for _, body := range en.UpTo(n) {
